@@ -12,12 +12,21 @@ import sys
 sys.path.insert(0, os.path.dirname(os.path.abspath(__file__)))
 import anyio  # noqa: E402
 from guard import guarded_run  # noqa: E402
-from asphalt.core import Context, add_teardown_callback, start_service_task  # noqa: E402
+from asphalt.core import Context, add_teardown_callback, get_resource_nowait, start_service_task  # noqa: E402
 from director import Director, backend_options, settle  # noqa: E402
 
 
 class Crash(Exception):
     pass
+
+
+class BlockError(Exception):
+    """the owner's block ends with this exception instead of falling off its end"""
+
+
+class Marker:
+    def __init__(self, tag):
+        self.tag = tag
 
 
 class CallableAction:
@@ -30,7 +39,7 @@ class CallableAction:
         return self.fn()
 
 
-def make_task(d, sid, sv, stop):
+def make_task(d, sid, sv, stop, snapshot_bad):
     async def cleanup():
         with anyio.CancelScope(shield=True):
             for _ in range(sv["cleanup"]):
@@ -39,6 +48,12 @@ def make_task(d, sid, sv, stop):
 
     async def task():
         d.obs("Started", sid)
+        # the task's own context is a snapshot taken when the task was started: what the owner registered before
+        # the call is there, what it registers after the call has returned (even without a checkpoint) is not
+        before = get_resource_nowait(Marker, f"before{sid}", optional=True)
+        after = get_resource_nowait(Marker, f"after{sid}", optional=True)
+        if before is None or after is not None:
+            snapshot_bad.append([sid, before is not None, after is not None])
 
         async def own_context_teardown():
             # runs when the task's own context is torn down, after the task function is over;
@@ -82,6 +97,7 @@ async def run_case(case):
     choices = list(case["choices"])
     steps = []
     result = {"left": False, "outcome": None}
+    snapshot_bad = []
     done = anyio.Event()
 
     async def owner_body(ctx):
@@ -101,6 +117,7 @@ async def run_case(case):
                 sid = b[1]
                 sv = svcs[sid]
                 stop = anyio.Event()
+                ctx.add_resource(Marker("before"), f"before{sid}")
                 act = sv["action"]
                 if act == "ACancel":
                     ta = "cancel"
@@ -133,7 +150,7 @@ async def run_case(case):
                 if deferred is not None:
                     x, deferred = deferred, None
                     window = anyio.Event()
-                    inner_task = make_task(d, sid, sv, stop)
+                    inner_task = make_task(d, sid, sv, stop, snapshot_bad)
 
                     async def slow_start(*, task_status, inner_task=inner_task, window=window):
                         await window.wait()
@@ -149,17 +166,20 @@ async def run_case(case):
                 elif sid % 2 and helper.get("ready"):
                     # the call is made on the owning context by a task whose current context is another
                     # one (the outer context): the task belongs to the context whose method was called
-                    helper["job"] = (ctx, make_task(d, sid, sv, stop), f"s{sid}", ta)
+                    helper["job"] = (ctx, make_task(d, sid, sv, stop, snapshot_bad), f"s{sid}", ta)
                     helper["done"] = anyio.Event()
                     helper["go"].set()
                     await helper["done"].wait()
                     if helper.get("error"):
                         raise helper["error"]
                 elif sid % 2:
-                    await ctx.start_service_task(make_task(d, sid, sv, stop), f"s{sid}", teardown_action=ta)
+                    await ctx.start_service_task(make_task(d, sid, sv, stop, snapshot_bad), f"s{sid}", teardown_action=ta)
                 else:
-                    await start_service_task(make_task(d, sid, sv, stop), f"s{sid}", teardown_action=ta)
+                    await start_service_task(make_task(d, sid, sv, stop, snapshot_bad), f"s{sid}", teardown_action=ta)
+                ctx.add_resource(Marker("after"), f"after{sid}")       # straight after the call, no checkpoint
             # EndBlock: fall out of the loop body -> the block ends
+        if case.get("block_raises"):
+            raise BlockError()
 
     helper = {}
 
@@ -185,8 +205,11 @@ async def run_case(case):
                         await anyio.sleep(0)
                         await anyio.sleep(0)
                         try:
-                            async with Context() as ctx:
-                                await owner_body(ctx)
+                            try:
+                                async with Context() as ctx:
+                                    await owner_body(ctx)
+                            except BlockError:
+                                pass       # the block's own exception came out, as itself, after the teardown
                             d.obs("Left")
                             result["left"] = True
                         finally:
@@ -198,8 +221,11 @@ async def run_case(case):
                     d.obs("Left")
                     result["left"] = True
             else:
-                async with Context() as ctx:
-                    await owner_body(ctx)
+                try:
+                    async with Context() as ctx:
+                        await owner_body(ctx)
+                except BlockError:
+                    pass
                 d.obs("Left")
                 result["left"] = True
         except BaseException as e:  # noqa
@@ -234,7 +260,8 @@ async def run_case(case):
             tg.cancel_scope.cancel()
     return {"backend": case["backend"], "svcs": svcs, "prog": prog, "nested": case["nested"],
             "choices": case["choices"], "first": first, "steps": steps, "left": result["left"],
-            "outcome": result["outcome"], "late": late, "still_waiting": still}
+            "outcome": result["outcome"], "late": late, "still_waiting": still, "snapshot_bad": snapshot_bad,
+            "block_raises": bool(case.get("block_raises"))}
 
 
 def describe(e):
